@@ -6,7 +6,7 @@ from ..engine import AnalysisError, show, strip, short, walk, last_seg
 
 PROP = "C01"
 LEVEL = "other"
-QUICK = ["K0", "K1"]
+QUICK = ["K0", "K1", "K3"]  # K3 (marksweep_as_nonmoving) carries the listed known finding
 THOROUGH = ALL_CONFIGS
 ASSUMPTIONS = ["ObjectModel::copy / Scanning::scan_object (the binding) copy the right bytes and report every reference field",
                "marking / forwarding arithmetic and the exactly-once claims are decided under C17/C18; prepare/release pairing under C09; remembered sets under C05"]
